@@ -286,6 +286,22 @@ func (ex *Exec) oblige(fr *Frame, st *State, kind, label string, goal *Term, pos
 	ex.obls = append(ex.obls, o)
 }
 
+// reachCheck records a guard obligation "the assumptions collected on the way to this point are
+// satisfiable". It is the assertion that must fail: the goal is false, and a solver proving it
+// means that the contracts, models or invariants assumed on this path contradict each other.
+func (ex *Exec) reachCheck(fr *Frame, st *State, label string) {
+	if ex.spec > 0 || st == nil {
+		return
+	}
+	name := fr.label + "#vacuity[" + label + "]"
+	ex.names[name]++
+	if n := ex.names[name]; n > 1 {
+		name = fmt.Sprintf("%s~%d", name, n)
+	}
+	ex.obls = append(ex.obls, &Obligation{Name: name, Kind: "vacuity", Func: fr.label, NFacts: len(ex.facts),
+		Goal: Implies(st.reach, False()), Backend: "smt", Text: label + ": the assumptions on this path are satisfiable (expected: sat)"})
+}
+
 func shortFile(f string) string {
 	if i := strings.Index(f, "/repo/"); i >= 0 {
 		return f[i+6:]
@@ -691,6 +707,11 @@ func (ex *Exec) run(fr *Frame, st *State) callResult {
 			if fr.parent == nil {
 				ex.curBlk = nil
 				ex.curBlks = fr.backSrc[h]
+			}
+			if ex.loopSpec(fr, h) != nil {
+				// reachability guard: the end of the loop body must not be contradictory, or every
+				// per-iteration obligation below would hold vacuously
+				ex.reachCheck(fr, ex.mergeStates(sts), fmt.Sprintf("loop%d.body-reachable", fr.li.ord[h]))
 			}
 			if len(sts) >= 4 && fr.parent == nil {
 				// many incoming back edges: check each separately (same obligation names; every
